@@ -45,6 +45,11 @@ def flatten(t, guard=T.TRUE, loops=(), stop_at_lphi=False) -> list:
                 col = tgt[2]
             elif tag(tgt) == 'col' and tag(tgt[1]) == 'mask' and tgt[1][1] == ('it',):
                 col, row = tgt[2], ('mask', tgt[1][2])
+            elif tag(tgt) == 'col' and tag(tgt[1]) == 'rows' and tgt[1][1] == ('it',):
+                col, row = tgt[2], ('rows', tgt[1][2], tgt[1][3])
+            elif tag(tgt) == 'cols' and tag(tgt[1]) in ('mask', 'rows') and tgt[1][1] == ('it',):
+                col = tgt[2][0] if len(tgt[2]) == 1 else ('multi', tgt[2])
+                row = ('mask', tgt[1][2]) if tag(tgt[1]) == 'mask' else ('rows', tgt[1][2], tgt[1][3])
             elif tag(tgt) == 'sub' and tgt[1] == ('it',):
                 col = ('dyn', tgt[2])
             out.append(Op('set', cur[1], cur, col=col, row=row, value=val, guard=guard, loops=loops, target=tgt))
